@@ -88,7 +88,7 @@ func MergeNodes(left, right Node, document *Document) (Node, error) {
 			}
 		}
 
-		r.AddNode(child)
+		r.AddNode(DeepCopy(child, document))
 	next:
 	}
 
